@@ -87,16 +87,12 @@ def _create_consumer(ctx, consumer_uuid, project, user, consumer_type_id):
         consumer.create()
         created_new_consumer = True
     except exception.ConsumerExists:
-        # Another thread created this consumer already, verify whether
-        # the consumer type matches
+        # Another thread created this consumer already. Do not touch its
+        # record here: whether this request goes ahead is not decided yet
+        # (from 1.28 it is refused), and if it does, a different consumer
+        # type is applied by update_consumers() in the same transaction as
+        # the allocations.
         consumer = consumer_obj.Consumer.get_by_uuid(ctx, consumer_uuid)
-        # If the types don't match, update the consumer record
-        if consumer_type_id != consumer.consumer_type_id:
-            LOG.debug("Supplied consumer type for consumer %s was "
-                      "different than existing record. Updating "
-                      "consumer record.", consumer_uuid)
-            consumer.consumer_type_id = consumer_type_id
-            consumer.update()
     return consumer, created_new_consumer
 
 
